@@ -4,6 +4,9 @@ go 1.21
 
 require github.com/jsightapi/jsight-schema-core v0.0.0
 
-require github.com/lucasjones/reggen v0.0.0-20200904144131-37ba4fa293bb // indirect
+require (
+	github.com/lucasjones/reggen v0.0.0-20200904144131-37ba4fa293bb // indirect
+	golang.org/x/text v0.14.0 // indirect
+)
 
 replace github.com/jsightapi/jsight-schema-core => /repo
